@@ -229,6 +229,9 @@ func (n *cliNet) deliver(nr *netReq) {
 	n.r.Log("net", "%v #%d delivered", nr.deliveredAt, nr.id)
 	f := nr.fate
 	resp := nr.resp
+	if f.fault != "" {
+		n.r.HoldsOff() // the fault is about to end the client
+	}
 	switch f.fault {
 	case "transport":
 		n.r.Fault("transport-error")
